@@ -54,9 +54,18 @@ func main() {
 
 func sortedFuncs(e *Engine, filter func(*ssa.Function) bool) []*ssa.Function {
 	var fns []*ssa.Function
+	have := map[string]bool{}
 	for fn := range e.allFuncs {
 		if e.inRepo(fn) && len(fn.Blocks) > 0 && fn.Synthetic == "" && filter(fn) {
 			fns = append(fns, fn)
+			have[fnKey(fn)] = true
+		}
+	}
+	// functions under contract are always swept (the check selects them by contract key, e.g. generic methods)
+	for k := range e.Specs.Funcs {
+		if fn := e.byKey[k]; fn != nil && !have[k] && len(fn.Blocks) > 0 && filter(fn) {
+			fns = append(fns, fn)
+			have[k] = true
 		}
 	}
 	sort.Slice(fns, func(i, j int) bool { return fnKey(fns[i]) < fnKey(fns[j]) })
